@@ -77,14 +77,20 @@ def native_replay(repo, unit, decoded):
     if not bindir: return None, "replay crate does not build: " + err[-400:]
     LATTICE = [0, (1 << 64) - 1, 1 << 63, (1 << 63) - 1, 0x7ff, ((1 << 64) - 1) ^ 0x7ff, 1 << 11, 1 << 12, 0xff, ((1 << 64) - 1) ^ 0xff, 0xffffffff, 1 << 32]
 
-    def run_with(words_override):
+    def fbits(ty, v):
+        return struct.unpack("<Q", struct.pack("<d", v))[0] if ty == "f64" else struct.unpack("<I", struct.pack("<f", v))[0]
+
+    def run_with(words_override, params_override=None):
         args = []
+        fi = 0
         for d in decoded:
             if d[1] == "words":
                 ws = list(d[2])
                 if words_override is not None:
                     ws = [words_override[0]] + ws[1:] if ws else list(words_override)
                 args += ["w:%d" % w for w in ws]
+            elif d[1] in ("f64", "f32") and params_override is not None:
+                args.append("%s:%d" % (d[1], fbits(d[1], params_override[fi]))); fi += 1
             else: args.append("%s:%d" % (d[1], d[2]))
         cmd = [os.path.join(bindir, "distreplay"), rp["kind"], rp["id"], rp.get("float") or "-"] + args
         try:
@@ -102,6 +108,15 @@ def native_replay(repo, unit, decoded):
             rc2, txt2 = run_with([w])
             if rc2 == 1:
                 return True, txt2 + "\n(parameters from the verifier's counterexample; first word replaced by the boundary word %d)" % w
+    nfloat = sum(1 for d in decoded if d[1] in ("f64", "f32"))
+    if rc == 0 and 1 <= nfloat <= 3:
+        # ... or on contract-permitted libm values for the verifier's extreme parameters: keep the words, try a small
+        # lattice of ordinary parameter values on the real code
+        import itertools
+        for combo in itertools.product([1.0, 2.0, -1.5, 0.25, 3.0], repeat=nfloat):
+            rc3, txt3 = run_with(None, combo)
+            if rc3 == 1:
+                return True, txt3 + "\n(RNG words from the verifier's counterexample; parameters replaced by the ordinary values %s)" % (combo,)
     if rc == 0: return False, txt
     return None, txt
 
